@@ -1075,6 +1075,32 @@ func callBuiltin(caller *frame, callpos token.Pos, fn *ssa.Builtin, args []value
 			panic(fmt.Sprintf("cap: illegal operand: %T", x))
 		}
 
+	case "clear":
+		switch x := args[0].(type) {
+		case []value:
+			var et types.Type
+			if sig, ok := fn.Type().(*types.Signature); ok && sig.Params().Len() > 0 {
+				if sl, ok := sig.Params().At(0).Type().Underlying().(*types.Slice); ok {
+					et = sl.Elem()
+				}
+			}
+			for i := range x {
+				if et != nil {
+					x[i] = zero(et)
+				} else if _, ok := kindOf(x[i]); ok {
+					k, _ := kindOf(x[i])
+					x[i] = constOfKind(0, k)
+				}
+			}
+		case *omap:
+			if x != nil {
+				x.keys, x.vals, x.live = nil, nil, nil
+				x.idx = make(map[int][]int)
+				x.n, x.symKeys = 0, 0
+			}
+		}
+		return nil
+
 	case "min":
 		return foldLeft(min, args)
 	case "max":
